@@ -51,8 +51,25 @@ func TestKnown_DanglingElse(t *testing.T) {
 	}
 }
 
+// a tree returned by an earlier Parse stays what it is while later inputs are parsed: the previous case's tree is printed
+// again here and must still give the text it gave then (storage shared between the trees of successive parses: a pooled
+// parser whose slices keep their capacity)
+var heldTree *js.AST
+var heldText, heldSrc string
+
 func roundTrip(t fataler, src string, o js.Options, ast *js.AST) string {
+	if heldTree != nil {
+		if again := heldTree.JSString(); again != heldText {
+			h := heldSrc
+			heldTree = nil
+			t.Fatalf("the tree of an earlier Parse changed while %q was parsed\nearlier source:\n%s\nit printed as:\n%s\nit now prints as:\n%s", src, h, heldText, again)
+		}
+	}
 	out := ast.JSString()
+	defer func() {
+		// (after the comparison below has removed the parenthesis nodes from the tree)
+		heldTree, heldText, heldSrc = ast, ast.JSString(), src
+	}()
 	ast2, err := js.Parse(parse.NewInputString(out), o)
 	if err != nil {
 		t.Fatalf("the text printed for an accepted program is rejected (%+v)\nsource:\n%s\nprinted:\n%s\nerror: %v", o, src, out, err)
@@ -149,6 +166,9 @@ var oddities = []string{
 	"yield\n*2", "return_\nx", "a\n++b", "x\n/re/g", "a = b\n/c/d", "a\n(b)", "a\n[b]", "a++\n(b)", "x = y => {}\n(z)", "x = async y => {}\n[z]", "++a ** 2", "(-a) ** 2", "(a, b) => ({}).x", "(a) => ({})",
 	"of = of\nof", "for(of of of);", "for(var of of of);", "get\nset", "x = {get\n[a](){}}", "static\nx", "class A{static\nstatic(){}}", "class A{'constructor'(){}}", "await\nx", "(await)", "yield\n", "x = {await, yield, async, let, of}",
 	"`${a++\n`b`", "`${a=>{}\n`b`}`", "x = `${a}\n`b``", "a\n`b`", "a++\n`b${c}d`", "if (a) if (b) c;\nelse d", "if (a) { if (b) c; } else d", "if (a) if (b) c; else d; else e",
+	"x = {'01': 1}", "x = {\"0123\": 1, '09': 2}", "x = {'1e3': 1, '0x10': 2, '1_0': 3, '.5': 4, '5.': 5, '-1': 6, '0': 7, '00': 8, '1n': 9, '0b1': 10, '1.0': 11, '9007199254740993': 12, '1e21': 13}",
+	"class A{'01'(){} static '02' = 1; get '03'(){} }", "var {'01': a, '1.50': b} = x", "({'01': a}) => a", "x = {01: 1}", "x = {1: 1, 1.5: 2, 0x10: 3, 1e3: 4, .5: 5, 1n: 6}", "x = {'a-b': 1, 'a b': 2, '': 3, 'é': 4, 'if': 5, 'let': 6, '__proto__': 7, '#a': 8}",
+	"/*! a */\n/*! b */ x; /*! c */ y", "/*! only */", "/*! 1 */ a; /*! 2 */ b; /*! 3 */ c; /*! 4 */ d; /*! 5 */ e; /*! 6 */ f; /*! 7 */ g; /*! 8 */ h; /*! 9 */ i",
 	"a = 1 .toString()", "a = 1..toString()", "a = 1_0 .b", "a = 0x1.b", "a = - -b", "a = + +b", "a = - --b", "a = +(+b)", "a = b-- - --c", "a = b++ + ++c", "a = typeof typeof b", "a = !(!b)", "new (a())", "new (a.b())()", "new a().b", "(new a).b", "new (import(a))",
 	"a = b ? (c, d) : e", "a = (b, c)", "for((a in b);;);", "for(var a = (b in c);;);", "for(a = (x => y in z);;);", "x = (function(){}).name", "x = (class{}).name", "({}).x", "({a} = b)", "[a] = b", "(function(){})()", "(class{})", "(() => {})()", "`${{}}`",
 }
